@@ -67,7 +67,7 @@ FoldFamilies == {[kind |-> "wit", kd |-> kd, b |-> b] : kd \in Kinds, b \in Boun
 \* reference value of the fold (book semantics) to place in EXP
 RefFold(kd, lst) ==
   LET m == MainCtx(Defs \o <<Main(Blk(<<>>))>>, G0)
-      C == [fns |-> m.G.fns, al |-> m.G.al, wit |-> EmptyFn, args |-> EmptyFn]
+      C == [fns |-> m.G.fns, al |-> m.G.al, wit |-> EmptyFn, args |-> EmptyFn, env |-> DummyEnv]
       init == Ev(kd.init, kd.ta, EmptyFn, C)
   IN FoldLoop(m.G.fns[kd.f], lst.es, 1, init, C)
 
